@@ -347,6 +347,39 @@ func asKillDuringGracefulRestart(rng *rand.Rand) (*asScenario, []asStep) {
 		}
 		return sc, steps
 	}
+	if rng.Intn(4) == 0 {
+		// subscriptions with a history (two types, one given up again, by the only or not the only subscriber), then the
+		// subscriber terminates: nothing of it may stay in the stream
+		steps := []asStep{{A: "spawn", X: "t"}, {A: "settle"}}
+		who := []string{"f", "c", "b"}[rng.Intn(3)]
+		seq := [][][2]string{{{"sub", "A"}, {"sub", "B"}, {"unsub", "A"}}, {{"sub", "B"}, {"sub", "A"}, {"unsub", "B"}}, {{"sub", "A"}, {"sub", "B"}, {"unsub", "A"}, {"sub", "A"}}, {{"sub", "A"}, {"unsub", "A"}, {"sub", "B"}}}[rng.Intn(4)]
+		if rng.Intn(2) == 0 {
+			steps = append(steps, asStep{A: "tell", X: "t", Op: "sub", Arg: "A"}, asStep{A: "settle"}) // somebody else holds A as well
+		}
+		for _, o := range seq {
+			steps = append(steps, asStep{A: "tell", X: who, Op: o[0], Arg: o[1]}, asStep{A: "settle"})
+		}
+		steps = append(steps, asStep{A: "kill", X: []string{who, "f", "t"}[rng.Intn(3)], Poison: rng.Intn(2) == 0}, asStep{A: "settle"},
+			asStep{A: "tell", X: "t", Op: "pub", Arg: "A"}, asStep{A: "tell", X: "t", Op: "pub", Arg: "B"}, asStep{A: "settle"})
+		return sc, steps
+	}
+	if rng.Intn(3) == 0 {
+		// a Watch that reaches its target while the target is terminating (or restarting) and still waits for its child:
+		// the watcher must hear of the termination when it has happened - not earlier, and not at all for a restart
+		sc.Cfg.Decision["t"] = []string{"restart", "grestart"}[rng.Intn(2)]
+		sc.Cfg.Strategy["t"] = "ofo"
+		steps := []asStep{{A: "spawn", X: "t"}, {A: "turn", X: "t"}, {A: "turn", X: "b"}, {A: "turn", X: "f"}, {A: "turn", X: "c"}}
+		if rng.Intn(2) == 0 {
+			steps = append(steps, asStep{A: "kill", X: "f", Poison: rng.Intn(2) == 0}, asStep{A: "turn", X: "f"})
+		} else {
+			steps = append(steps, asStep{A: "tell", X: "f", Op: "fail"}, asStep{A: "turn", X: "f"}, asStep{A: "turn", X: "t"}, asStep{A: "turn", X: "f"})
+		}
+		steps = append(steps, asStep{A: "tell", X: "b", Op: "watch", Arg: "f"}, asStep{A: "turn", X: "b"}, asStep{A: "turn", X: "f"}, asStep{A: "random"})
+		if rng.Intn(2) == 0 {
+			steps = append(steps, asStep{A: "kill", X: "f", Poison: rng.Intn(2) == 0})
+		}
+		return sc, steps
+	}
 	sc.Cfg.Decision["t"] = "grestart"
 	sc.Cfg.Strategy["t"] = "ofo"
 	steps := []asStep{{A: "spawn", X: "t"}, {A: "turn", X: "t"}, {A: "turn", X: "b"}, {A: "turn", X: "f"}, {A: "turn", X: "c"},
@@ -512,7 +545,7 @@ func asNontrivial(ev []map[string]any) bool {
 
 var asOpsBasic = [][2]string{{"nop", ""}, {"nop", ""}, {"fail", ""}, {"tell", "@"}, {"kill", "@"}, {"pkill", "@"}}
 var asOpsStash = [][2]string{{"nop", ""}, {"stash", ""}, {"stash", ""}, {"unstash", ""}, {"fail", ""}, {"tell", "@"}, {"tellself", ""}}
-var asOpsStream = [][2]string{{"nop", ""}, {"sub", "A"}, {"sub", "B"}, {"unsub", "A"}, {"unsuball", ""}, {"pub", "A"}, {"pub", "A"}, {"pub", "B"}, {"fail", ""}, {"kill", "@"}}
+var asOpsStream = [][2]string{{"nop", ""}, {"sub", "A"}, {"sub", "B"}, {"unsub", "A"}, {"unsub", "B"}, {"unsuball", ""}, {"pub", "A"}, {"pub", "A"}, {"pub", "B"}, {"fail", ""}, {"kill", "@"}}
 var asOpsWatch = [][2]string{{"nop", ""}, {"watch", "@"}, {"watch", "@"}, {"unwatch", "@"}, {"kill", "@"}, {"pkill", "@"}, {"fail", ""}}
 
 func init() {
@@ -538,7 +571,7 @@ func init() {
 	})
 	register("C06", func(c *core.Ctx) {
 		asCheck(c, asPlan{prop: "C06", monitors: []string{"KillMon"}, mc: t3, gen: g3, directed: asKillDuringGracefulRestart,
-			ops:  append(append([][2]string{{"sub", "A"}, {"sub", "B"}, {"sched-loop", ""}, {"sched-once", ""}, {"sched-cancel", ""}}, asOpsBasic...), asOpsWatch...),
+			ops:  append(append([][2]string{{"sub", "A"}, {"sub", "B"}, {"sub", "A"}, {"sub", "B"}, {"unsub", "A"}, {"unsub", "B"}, {"sched-loop", ""}, {"sched-once", ""}, {"sched-cancel", ""}}, asOpsBasic...), asOpsWatch...),
 			rule: base + "Judged by KillMon. Plus an ungated run in which a parent re-spawns its child under the same name the moment it is told of the child's termination."})
 		if c.IsBroken() {
 			return
